@@ -103,9 +103,13 @@ func (t *HToken) runScript(script string) (string, error) {
 	return strings.Join(out, "|"), nil
 }
 
-func (t *HToken) TxScript(_ *types.Sender, script string) error {
-	_, err := t.runScript(script)
-	return err
+func (t *HToken) TxScript(_ *types.Sender, script string) (string, error) {
+	return t.runScript(script)
+}
+
+// TxScriptTo carries an address argument (pre-validated against the ACL) next to the script.
+func (t *HToken) TxScriptTo(_ *types.Sender, _ *types.Address, script string) (string, error) {
+	return t.runScript(script)
 }
 
 func (t *HToken) NBTxNbScript(_ *types.Sender, script string) error {
@@ -323,3 +327,6 @@ func (t *HToken) QueryQEcho2(sender *types.Sender, a string, b string) (string, 
 }
 
 func (t *HToken) TxScript2(_ *types.Sender, a string, b string) error { return nil }
+
+// TxPlain is a batched method without a sender: not signed, no nonce.
+func (t *HToken) TxPlain(script string) (string, error) { return t.runScript(script) }
